@@ -21,7 +21,7 @@ from props.c16 import _Desc
 
 LEVEL = "proof"
 MANIFEST = dict(
-    text="Lean 4 theorems about `engineIter`, a statement-by-statement model of one `_thread_func` iteration (throttled pop(0) send, recvfrom + first-match  Session 4: over the regenerated skeletons of all seven socket methods that touch the handler lists or the counters, every mutation happens under self._lock (shared_state_mutated_under_the_lock), hence by the lock holder for any number of threads and any pre-emptive interleaving that respects the lock (shared_state_mutually_exclusive, via lock_mutex)."
+    text="Lean 4 theorems about `engineIter`, a statement-by-statement model of one `_thread_func` iteration (throttled pop(0) send, recvfrom + first-match "
          "dispatch with handle/handled inside the swallowing try and nested <PACKT> re-dispatch, handler.loop = timeout -> retry / on_retry_failed inside its "
          "per-handler try, _cleanup_handlers, guarded _loop_func; queue_send recording the destination; phase order, throttle gap, pop index, timeout "
          "strictness, the two guards and the destination recording are re-extracted from the source on every run and the model is parameterised by them), "
@@ -42,7 +42,7 @@ MANIFEST = dict(
          "with the real engine stepped through its own `_thread_func` on boundary-aimed scripts, and of the handshake model with a real GeckoSpa against the "
          "real GeckoSimulator (both engines stepped, shipped snapshot) under seeded loss. Search: monitors on the stepped real engine (send order, gaps, "
          "dispatch target, handler list, retransmission counts, engine liveness, handshake outcome)."
-         ' Since session 3: per-attempt-timeout monitor (consecutive retransmissions of one request at least T apart) and a backlog corpus script; the simulator is built by its real constructor.',
+         ' Since session 3: per-attempt-timeout monitor (consecutive retransmissions of one request at least T apart) and a backlog corpus script; the simulator is built by its real constructor. Session 4: over the regenerated skeletons of all seven socket methods that touch the handler lists or the counters, every mutation happens under self._lock (shared_state_mutated_under_the_lock), hence by the lock holder for any number of threads and any pre-emptive interleaving that respects the lock (shared_state_mutually_exclusive, via lock_mutex). A real-thread search stops the clean-up step before each of its source lines while a second thread registers a request (registration must survive).',
     note="PARTIAL: real threads are outside the step model - client threads calling queue_send/add_receive_handler are serialised between iterations (the code "
          "uses self._lock for the lists; the new last_destination assignment in queue_send is outside the lock), and `_thread_func` iterates "
          "self._receive_handlers WITHOUT the lock while client threads may append (a data race the step model cannot exhibit; named, not claimed). "
@@ -1104,6 +1104,101 @@ def run_script_ops(ctx, ops):
     return rig, out
 
 
+def search_cleanup_race(ctx, only=None):
+    """REAL threads: the engine's clean-up step is stopped before each of its source lines in turn (line-granular pre-emption via
+    sys.settrace) while a client thread registers a new request with `add_receive_handler`; afterwards the new request must be
+    registered (its answer is dispatched to it), the finished one gone, the unfinished one still there - whatever the pre-emption point"""
+    import sys
+    import threading
+    from geckolib.driver.udp_socket import GeckoUdpSocket
+    from geckolib.driver import GeckoUdpProtocolHandler
+
+    class H(GeckoUdpProtocolHandler):
+        def __init__(self, tag, remove):
+            super().__init__()
+            self.tag, self._rm, self.n = tag, remove, 0
+
+        def can_handle(self, received_bytes, sender):
+            return received_bytes == self.tag
+
+        def handle(self, received_bytes, sender):
+            self.n += 1
+
+        @property
+        def should_remove_handler(self):
+            return self._rm
+    code = GeckoUdpSocket._cleanup_handlers.__code__
+    k, points = 0, 0
+    while k < 60:
+        if only is not None and k != only:
+            if k > only:
+                break
+            k += 1
+            continue
+        s = GeckoUdpSocket()
+        keep, gone, new = H(b"K", False), H(b"G", True), H(b"N", False)
+        s.add_receive_handler(keep)
+        s.add_receive_handler(gone)
+        paused, resume = threading.Event(), threading.Event()
+        seen = {"n": 0, "line": None}
+
+        def tracer(frame, event, arg):
+            if frame.f_code is not code:
+                return None
+
+            def local(frame, event, arg):
+                if event == "line":
+                    if seen["n"] == k:
+                        seen["line"] = frame.f_lineno - code.co_firstlineno
+                        paused.set()
+                        resume.wait(5)
+                    seen["n"] += 1
+                return local
+            return local
+        err = {}
+
+        def run_a():
+            sys.settrace(tracer)
+            try:
+                s._cleanup_handlers()
+            except Exception as e:  # noqa
+                err["a"] = f"{type(e).__name__}: {e}"
+            finally:
+                sys.settrace(None)
+                paused.set()
+
+        def run_b():
+            try:
+                s.add_receive_handler(new)
+            except Exception as e:  # noqa
+                err["b"] = f"{type(e).__name__}: {e}"
+        ta = threading.Thread(target=run_a, daemon=True)
+        ta.start()
+        paused.wait(5)
+        if seen["line"] is None:
+            ta.join(5)
+            break
+        tb = threading.Thread(target=run_b, daemon=True)
+        tb.start()
+        tb.join(0.05)                       # still alive = blocked on the lock the clean-up holds
+        resume.set()
+        ta.join(5)
+        tb.join(5)
+        for tag in (b"K", b"G", b"N"):
+            s.dispatch_recevied_data(tag, ("10.0.0.1", 10022))
+        points += 1
+        ctx.count("evaluations")
+        got = {"kept_dispatched": keep.n, "finished_dispatched": gone.n, "new_dispatched": new.n, "errors": err}
+        if err or (keep.n, gone.n, new.n) != (1, 0, 1):
+            ctx.violation("cleanup-race:registration-lost" if new.n == 0 else "cleanup-race:wrong-handler-list",
+                          {"kind": "cleanup-race", "pause_before_line_offset": seen["line"], "pause_index": k},
+                          "after the clean-up and the concurrent registration: the unfinished handler and the NEW handler get their datagrams, the finished one does not",
+                          got)
+            break
+        k += 1
+    ctx.cov["cleanup_race_preemption_points"] = points
+
+
 def run(ctx):
     st = translate.run(["ThreadedFacts", "SimChain", "TransferConsts", "Skeletons"])
     ctx.cov["translator"] = st
@@ -1111,6 +1206,10 @@ def run(ctx):
         if v != "ok":
             ctx.obligation_broken(f"translate:{k}", v)
     ctx.lean_obligations("GeckoModel.Properties.C20")
+    try:
+        search_cleanup_race(ctx)
+    except Exception as e:  # noqa
+        ctx.obligation_broken("harness:cleanup-race", f"{type(e).__name__}: {e}")
     rng = ctx.rng
     lines, impl_ans = [], []
     featsets, allfeats = set(), {}
@@ -1211,6 +1310,9 @@ def run(ctx):
 def replay(inp):
     from common import Ctx
     ctx = Ctx("C20", "quick", 0)
+    if inp.get("kind") == "cleanup-race":
+        search_cleanup_race(ctx, only=inp["pause_index"])
+        return bool(ctx.violations), ctx.violations[0]["observed"] if ctx.violations else "registered"
     with vloop.patch_time(_now):
         if inp.get("kind") == "handshake":
             res = handshake_case(ctx, inp, [], [])
